@@ -12,6 +12,7 @@ Replies(rt) ==
 Others(rt) ==
     {"ev-custom-bad", "ev-change-bad", "ev-add-bad", "timeout", "timeout-neg", "ev-custom", "ev-reserved", "ev-malformed", "ev-change", "ev-change-empty", "ev-add", "ev-add-neg", "ev-remove",
      "ev-remove-neg", "ev-create", "ev-delete", "ev-reaccess", "ev-reset", "panic-res", "panic-err", "panic-str", "panic-int"}
+    \cup {"ev-dollar", "ev-empty", "ev-wild"}
     \cup {"try-ev-custom", "try-ev-change", "try-ev-add", "try-ev-create", "try-panic-str"}
     \cup (IF rt \in {"access", "call", "auth"} THEN {"status", "header", "status-redirect", "header-location"} ELSE {})
     \cup (IF rt = "auth" THEN {"tokenevent"} ELSE {})
